@@ -21,7 +21,10 @@ CONSTANT MaxDepth
 \* for2: two loops one after the other in one scope, the body reading x and y_i before it binds them
 Kinds == {"for", "for2", "fn", "fn2", "partial", "partialvar", "cof", "cof2", "cofdef", "blkown", "foriter", "cofdeep", "blktry",
           \* fnloop: a function without parameters whose body is a loop -- two scopes between the caller and the body
-          "fnloop"}
+          "fnloop",
+          \* fnargs: a function with a further parameter q whose ARGUMENT mentions x, the name of the parameter before it: the
+          \* argument list is the caller's (q is the caller's x, not the value the call binds x to)
+          "fnargs"}
 \* bind: the construct itself binds x; let: it binds an unrelated name and its body lets x;
 \* bare: it binds nothing at all (function without parameters, partial / contentOf without data) and its body lets x
 \* keep: it binds nothing and its body does NOT bind x either: x read inside is the x of the nearest level above that binds it
@@ -85,6 +88,9 @@ Construct(i) ==
                                 Text(<<"/">>),
                                 Emit(Call("contentOf", <<Str(CN(i))>>)),
                                 Emit(IfElse(Id("w"), <<Text(<<"L">>)>>, <<Text(<<"-">>)>>))>>
+    [] fs[i].k = "fnargs"  -> LET pre == <<Text(<<"LBR">>), Emit(Id("q")), Text(<<"RBR">>)>> IN
+                              IF Bare(i) THEN <<Let(FNm(i), FnLit(<<"q">>, pre \o Body(i))), Emit(Call(FNm(i), <<Id(xn)>>))>>
+                              ELSE <<Let(FNm(i), FnLit(<<BN(i), "q">>, pre \o Body(i))), Emit(Call(FNm(i), <<BV(i), Id(xn)>>))>>
     [] fs[i].k = "fnloop"  -> <<Let(FNm(i), FnLit(<<>>, <<Emit(For("", BN(i), Arr(<<BV(i)>>), Body(i)))>>)), Emit(Call(FNm(i), <<>>))>>
     [] fs[i].k = "foriter" -> <<Emit(For("", "u", Call("until", <<IntL(1)>>), Body(i)))>>
     \* after contentOf returns, the loop body is still in the loop's scope: its own x and the loop variable
@@ -130,7 +136,7 @@ RECURSIVE Inside(_)
 ProbeText(i) == <<"[">> \o XV(i) \o <<",", "t", "0", "]">>
 AfterText(j) == IF j <= Len(fs) THEN <<"(">> \o XV(j - 1) \o <<"-", ")">> ELSE <<>>
 Inside(i) == ProbeText(i) \o (IF i < Len(fs) THEN Inside(i + 1) ELSE <<"*">>) \o AfterText(i + 1)
-ProbeTheorem == (res.k = "out" /\ \A i \in 1..Len(fs) : fs[i].k \notin {"cof2", "cofdeep", "fn2", "for2", "partialvar", "cofdef", "blktry"} /\ fs[i].m # "keep") => PiecesText(res.pieces) = ProbeText(0) \o Inside(1) \o AfterText(1) \o ProbeText(0)
+ProbeTheorem == (res.k = "out" /\ \A i \in 1..Len(fs) : fs[i].k \notin {"cof2", "cofdeep", "fn2", "for2", "partialvar", "cofdef", "blktry", "fnargs"} /\ fs[i].m # "keep") => PiecesText(res.pieces) = ProbeText(0) \o Inside(1) \o AfterText(1) \o ProbeText(0)
 
 Expect(r) == CASE r.k = "out" -> [k |-> "out", pieces |-> r.pieces, log |-> r.log]
                [] r.k = "err" -> [k |-> "err", w |-> r.w, log |-> r.log]
